@@ -10,6 +10,7 @@ well-formed UTF-8".  Because the representation model refines the std-side speci
 -/
 import HipVerif.Model.Utf8
 import HipVerif.Spec.Std
+import HipVerif.Model.CoreWf
 
 namespace HipVerif.Str
 open HipVerif.Utf8 HipVerif.Core HipVerif.Spec.Std HipVerif.Spec.Range HipVerif.RangeTy
@@ -33,6 +34,104 @@ def StrSafe (srcs : List (List UInt8)) (p : SPool) : Op → Prop
       isBoundary v rel = true ∧ isBoundary v (rel + plen) = true
   | .asMutWrite h i b | .toMutWrite h i b => ∀ v, sget p h = some v → valid (v.set i b) = true
   | .mutate h script => ∀ v, sget p h = some v → valid (script.foldl applyVecOp v) = true
+  | _ => True
+
+end HipVerif.Str
+
+namespace HipVerif.Str
+open HipVerif.Utf8 HipVerif.Core HipVerif.Spec.Std HipVerif.Spec.Range HipVerif.RangeTy
+
+/-- `string::SliceErrorKind` adds the two boundary errors to the range errors -/
+inductive StrErr where
+  | range (a b : Nat) (k : SliceErrorKind)
+  | startNotBoundary (a b : Nat)
+  | endNotBoundary (a b : Nat)
+  deriving Repr, DecidableEq
+
+/-- The `HipStr` API proper: each operation is the check the code performs followed by the
+byte-level operation (src/string.rs).  Arguments of Rust type `&str` / `String` are byte lists
+the caller guarantees valid (`StrArgsOk`); `char`s are scalar values. -/
+inductive StrOp where
+  /-- every method that adds nothing to the byte-level one (clone, drop, shrink_to, into_owned,
+  make_ascii_*, to_ascii_*, repeat, mutate through `String`, into_string, …) -/
+  | byte (op : Op)
+  | pushStr (h : Nat) (bs : List UInt8)
+  | pushChar (h : Nat) (c : Nat)
+  | popChar (h : Nat)
+  | truncate (h n : Nat)
+  | trySlice (h d : Nat) (sb eb : Bound)
+  | slice (h d : Nat) (sb eb : Bound)
+  /-- `from_utf8(HipByt::from(bytes))`, `TryFrom<&[u8]>`, `TryFrom<Vec<u8>>` -/
+  | fromUtf8 (d : Nat) (bs : List UInt8)
+  deriving Repr
+
+inductive StrRet where
+  | byte (r : Ret)
+  | char (c : Option (List UInt8))
+  | sliceErr (e : StrErr)
+  | utf8Err (validUpTo : Nat)
+  | panic
+  deriving Repr, DecidableEq
+
+def strStep (cfg : Cfg) (s : State) : StrOp → State × StrRet
+  | .byte op => let (s1, o) := Core.step cfg s op; (s1, .byte o.ret)
+  | .pushStr h bs => let (s1, o) := Core.step cfg s (.pushSlice h bs); (s1, .byte o.ret)
+  | .pushChar h c => let (s1, o) := Core.step cfg s (.pushSlice h (encode c)); (s1, .byte o.ret)
+  | .popChar h =>
+    match getH s h with
+    | some hd =>
+      let v := view s hd
+      if v.length = 0 then (s, .char none)
+      else
+        -- `char_indices().next_back()` then `self.truncate(i)` (which re-checks the boundary)
+        let i := lastCharStart v
+        if isBoundary v i then
+          let (s1, _) := Core.step cfg s (.truncate h i)
+          (s1, .char (some (v.drop i)))
+        else (s, .panic)
+    | none => (s, .byte .badOp)
+  | .truncate h n =>
+    match getH s h with
+    | some hd =>
+      let v := view s hd
+      if n ≤ v.length then
+        if isBoundary v n then let (s1, o) := Core.step cfg s (.truncate h n); (s1, .byte o.ret)
+        else (s, .panic)
+      else (s, .byte .unit)
+    | none => (s, .byte .badOp)
+  | .trySlice h d sb eb =>
+    match getH s h with
+    | some hd =>
+      let v := view s hd
+      match Gen.Ranges.simplifyRangeMono sb eb v.length with
+      | .ok (a, b) =>
+        if !isBoundary v a then (s, .sliceErr (.startNotBoundary a b))
+        else if !isBoundary v b then (s, .sliceErr (.endNotBoundary a b))
+        else let (s1, o) := Core.step cfg s (.trySlice h d sb eb); (s1, .byte o.ret)
+      | .err (a, b, k) => (s, .sliceErr (.range a b k))
+      | _ => (s, .panic)
+    | none => (s, .byte .badOp)
+  | .slice h d sb eb =>
+    match getH s h with
+    | some hd =>
+      let v := view s hd
+      match Gen.Ranges.simplifyRangeMono sb eb v.length with
+      | .ok (a, b) =>
+        if isBoundary v a && isBoundary v b then
+          let (s1, o) := Core.step cfg s (.slice h d sb eb); (s1, .byte o.ret)
+        else (s, .panic)
+      | _ => (s, .panic)
+    | none => (s, .byte .badOp)
+  | .fromUtf8 d bs =>
+    if valid bs then let (s1, o) := Core.step cfg s (.fromSlice d bs); (s1, .byte o.ret)
+    else (s, .utf8Err (validUpTo bs))
+
+/-- Rust's typing of the arguments: `&str` data is valid, a `char` is a scalar value; the
+`byte` ops carry their own condition (`StrSafe`). -/
+def StrArgsOk (s : State) : StrOp → Prop
+  | .byte op => StrSafe s.srcs (Core.abs s) op
+  | .pushStr _ bs => valid bs = true
+  | .pushChar _ c => isScalar c = true
   | _ => True
 
 end HipVerif.Str
